@@ -836,7 +836,7 @@ func (d *c06DB) reconnect(rpc string, removeOk bool) (string, *c06Rpc) {
 		panic("bad rpc outcome " + rpc)
 	}
 	cl := &c06Cleaner{d: d, removeOk: removeOk}
-	err := auctioneer.VerifCheckPendingBatch(d.db, cl, f)
+	err := auctioneer.VerifStageCheckPendingBatch(d.db, cl, f)
 	res := "ok"
 	if err != nil {
 		switch {
